@@ -66,6 +66,7 @@ FIXED = [
     "fixed: property=C01 41e079a `i0 + i2 + i1 + i0` (a source that is a member of a + wire merge and also a direct operand of the merge's consumer) lost a term: the merge operand was read on one colour only",
     "fixed: property=C02 6b6b8df `(r * 3)[\"a\"] * r[\"b\"]` (scalar operation on signals selected from two bundle wires) joined both wires on one colour: operands summed, each-combinator fed back into itself (did not settle)",
     "fixed: property=C10 dfc3dde `{ r[\"a\"], (\"q\", 9) } * r[\"a\"]`: CSE merged the two per-use copies of the selected member into one source (one colour), the member was counted twice with optimisation on",
+    "fixed: property=C02 ca68707 `any(b) == s` / `all(b) < s` with a signal threshold compared s with itself (threshold on the quantified network)",
     "fixed: property=C01 832242e `(c : k) && x` / `(c : k) || (d : j)` with constants other than 0/1 took the boolean shortcut (x*y, (x+y)>0) and yielded k or 0 instead of 1",
     "fixed: property=C01 7701d37 a comparison with an integer literal on the left (`3 < a`) was emitted as `signal-0 < a`",
 ]
